@@ -1381,6 +1381,14 @@ impl ParserState {
         self.with_items_limit(self.limits.step_max_items, "ff_tokens", |s| {
             while let Some(b) = s.forced_byte() {
                 debug!("  forced: {:?} 0x{:x}", b as char, b);
+                // Bytes forced inside a lexeme create no Earley items, so count every forced
+                // byte against the per-step item budget: a state that forces bytes without end
+                // (e.g. a terminal shadowed by an %ignore lexeme) then stops with the usual
+                // "too many items" error instead of looping and allocating forever.
+                s.stats.all_items += 1;
+                if s.stats.all_items > s.max_all_items {
+                    break;
+                }
                 if b == TokTrie::SPECIAL_TOKEN_MARKER {
                     assert!(!s.has_pending_lexeme_bytes());
                     let specs = s.token_range_lexemes();
